@@ -217,7 +217,22 @@ class Run10:
             return ('num',)
         sym = None
         if op['kind'] == 'meth':
-            sym = any(isinstance(a, MultiVector) and a.issymbolic for a in args)
+            # Python-level composites (pow, exp, normalized, ...) chain several operator calls; a symbolic
+            # intermediate result is stored without its vanishing coefficients, so the key patterns of the
+            # inner calls are a function of the operand patterns *and* of which symbolic coefficients are
+            # exactly zero: both belong to the descriptor
+            def zeros(a):
+                out = []
+                for j, v in enumerate(a.values()):
+                    try:
+                        if bool(v == 0):
+                            out.append(j)
+                    except Exception:
+                        pass
+                return tuple(out)
+            sym = tuple((True, zeros(a)) if a.issymbolic else False for a in args if isinstance(a, MultiVector))
+            if not any(sym):
+                sym = False
         return (op['alg'], op['kind'], op.get('op') or op.get('fn'), op.get('form'),
                 repr(op.get('params')), tuple(kd(a) for a in args), sym)
 
